@@ -363,7 +363,7 @@ def worker(shard, part):
         session_worker_prefix(prefix, depth, part)
 
 
-def main(tier, seed, only=None):
+def prepare(tier):
     global _TERMS
     strata = build_strata(tier)
     _TERMS = dict(strata)
@@ -372,6 +372,11 @@ def main(tier, seed, only=None):
     memo = {}
     pair_terms = progs.terms("bool", 1, leaves, memo) + progs.terms("bool", 0, leaves, memo)
     _TERMS["pairs"] = pair_terms
+    return strata, pair_terms
+
+
+def main(tier, seed, only=None):
+    strata, pair_terms = prepare(tier)
     shards = []
     CH = 250
     for name, lst in strata.items():
